@@ -144,7 +144,15 @@ def specStep (st : Unit) (line : String) : Unit × String :=
         if bytes.length > 65535 then (st, "unspecified")
         else if !kindsAgree ls rep then (st, "violates layers-reported")
         else match Dissect.check true ls bytes with
-          | .ok _ => (st, "ok")
+          | .ok _ =>
+            -- a second serialization of the same object is a serialized packet too
+            (match kv ow "again" with
+             | none => (st, "ok")
+             | some a => match parseHex a with
+               | some b2 => (match Dissect.check true ls b2 with
+                 | .ok _ => (st, "violates second-serialization differs")
+                 | .error e => (st, s!"violates second-serialization {e}"))
+               | none => (st, "violates unparsable-output"))
           | .error e => (st, s!"violates {e}")
       | _, _, _ => (st, "violates unparsable-output")
     | "pcap" :: _ =>
@@ -163,7 +171,14 @@ def specStep (st : Unit) (line : String) : Unit × String :=
       | some bytes, some rep =>
         if bytes.length > 65535 then (st, "unspecified")
         else match Dissect.check false (rep.map ofReported) bytes with
-          | .ok _ => (st, "ok")
+          | .ok _ =>
+            (match kv ow "again" with
+             | none => (st, "ok")
+             | some a => match parseHex a with
+               | some b2 => (match Dissect.check false (rep.map ofReported) b2 with
+                 | .ok _ => (st, "violates second-serialization differs")
+                 | .error e => (st, s!"violates second-serialization {e}"))
+               | none => (st, "violates unparsable-output"))
           | .error e => (st, s!"violates {e}")
       | _, _ => (st, "violates unparsable-output")
     | _ => (st, "bad-op")
